@@ -4,6 +4,8 @@ package drivers
 // files, the custom runner's socket directory, goroutines in the host.
 
 import (
+	"sync"
+	"context"
 	"encoding/json"
 	"fmt"
 	"os"
@@ -107,6 +109,23 @@ func runLeakCase(c lkCase, bin, base string) map[string]interface{} {
 				ok = false
 				out["op_err"] = fmt.Sprint(err)
 			}
+		case "unmatched_dials":
+			// the plugin dials one id twice at once, nobody ever accepts: both calls give up
+			var wg sync.WaitGroup
+			for k := 0; k < 2; k++ {
+				wg.Add(1)
+				go func() {
+					defer wg.Done()
+					ctx, cf := context.WithTimeout(context.Background(), 20*time.Second)
+					defer cf()
+					stub.DoCtx(ctx, vp.Cmd{Op: "dial", ID: id})
+				}()
+			}
+			wg.Wait()
+		case "unmatched_accept":
+			// the host accepts an id nobody dials: the accept gives up (net/rpc) / keeps a listener until the broker closes (gRPC)
+			stub.Broker.ServeWho(id, strconv.Itoa(int(id)))
+			time.Sleep(5200 * time.Millisecond)
 		case "stdio":
 			if _, err := stub.Do(vp.Cmd{Op: "stdio", S: "out", N: 5000, Seed: 9}); err != nil {
 				ok = false
